@@ -37,6 +37,14 @@ def selfcheck():
         raise HarnessError("model disagrees with a published Ethereum public key")
 
 
+class _Int(int):
+    pass
+
+
+class _Bytes(bytes):
+    pass
+
+
 def o_sign(ctx, case):
     suite, sk, msg = case["suite"], case["sk"], unhx(case["msg"])
     ctx.begin("sign", case)
@@ -47,6 +55,18 @@ def o_sign(ctx, case):
               f"SkToPk = {pk!r}, draft: compress(sk*G1) = {want_pk.hex()}")
     sig = S.Sign(sk, msg)
     want = blssig.sign(suite, sk, msg)
+    if case.get("subclassed"):
+        # the key as an instance of an int subclass and the message as an instance of a bytes subclass: the same
+        # values, so the same signature (a refusal by a stricter type gate would be legitimate)
+        from eth_utils import ValidationError
+        try:
+            got_s = S.Sign(_Int(sk), _Bytes(msg))
+        except (TypeError, ValidationError):
+            ctx.label("sign:subclass_instances_refused")
+        else:
+            ctx.check(bytes(got_s) == want, "sign", "argument_subclass", case,
+                      "Sign(int-subclass key, bytes-subclass message) differs from Sign on the plain values")
+            ctx.label("sign:subclass_instances")
     if case.get("tag") is not None:
         # the same through a suite derived with an application tag: the draft's value under THAT tag
         tag = unhx(case["tag"])
@@ -177,7 +197,8 @@ def s_sign(big):
         return d
     with_tag = st.tuples(st.tuples(base, st.sampled_from([0, 0, 0, 0, 1, 2, 3, 4])).map(own_pk_prefix),
                          st.one_of(st.none(), st.none(), st.none(), st.none(), st.sampled_from(sc.APP_TAGS).map(hx)))
-    return with_tag.map(lambda t: t[0] if t[1] is None else dict(t[0], tag=t[1]))
+    tagged = with_tag.map(lambda t: t[0] if t[1] is None else dict(t[0], tag=t[1]))
+    return st.tuples(tagged, st.integers(0, 5)).map(lambda t: dict(t[0], subclassed=True) if t[1] == 0 else t[0])
 
 
 def s_aggregate():
@@ -230,6 +251,7 @@ def t_sign(ctx, shard, nshards, n):
             ex.append({"suite": suite, "sk": sk, "msg": hx(b"\xa5" * 64)})
         ex.append({"suite": suite, "sk": 7, "msg": hx(blssig.sk_to_pk(7) + b"tail"), "own_pk": True})
         ex.append({"suite": suite, "sk": 9, "msg": hx(b"derived"), "tag": hx(sc.APP_TAGS[0])})
+        ex.append({"suite": suite, "sk": 11, "msg": hx(b"subclassed"), "subclassed": True})
         ex.append({"suite": suite, "sk": R - 1, "msg": hx(blssig.sk_to_pk(R - 1)), "own_pk": True})
     drive(ctx, f"sign{shard}", s_sign(ctx.tier == "thorough"), lambda c: o_sign(ctx, c), n, ex[shard::nshards],
           shrink=False)
